@@ -278,3 +278,72 @@ func H_C12_fault_delete_listentry(s any) { c12Run(s.(*meta.Module), 0, 2, true) 
 
 //vp:setup S_c12
 func H_C12_fault_delete_nested(s any) { c12Run(s.(*meta.Module), 0, 3, true) }
+
+// Two failing callbacks in one edit (hunt C12 finding 6): the second one can
+// only be an EndEdit sent while the edit unwinds. Pairing must still hold and
+// the returned error has to wrap both node errors.
+func c12TwoFaults(m *meta.Module, strategy int, entry int) {
+	shape := vpChoose(3)
+	src, dst := newMemStore(), newMemStore()
+	src.seq = dst.seq
+	c12Fill(src, shape)
+	c12Target(dst, shape, true, true)
+	k := vpInt()
+	k2 := vpInt()
+	vpAssume(k >= 1 && k <= 60 && k2 > k && k2 <= 70)
+	dst.faultAt, dst.faultAt2, dst.err2 = k, k2, errInjected2
+	root := NewBrowser(m, dst.node()).Root()
+	sel, srcNode := root, src.node()
+	if entry == 1 {
+		var ferr error
+		sel, ferr = root.Find("a")
+		if ferr != nil || sel == nil {
+			return
+		}
+		srcNode = &memNode{s: src, t: src.root.kids["a"]}
+	}
+	var err error
+	panicked := vpCatch(func() {
+		if strategy == 2 {
+			err = sel.UpdateFrom(srcNode)
+		} else {
+			err = sel.UpsertFrom(srcNode)
+		}
+	})
+	vpAssert(!panicked, "two failing callbacks are reported as an error, not a panic")
+	if panicked {
+		return
+	}
+	n1, n2 := false, false
+	kind1 := ""
+	for _, e := range dst.log {
+		if e.fail {
+			if !n1 {
+				n1, kind1 = true, e.kind
+			} else {
+				n2 = true
+			}
+		}
+	}
+	if kind1 == "choose" {
+		return // the known finding C12-choose-error-swallowed (decided by the one-fault harnesses): the edit went on after the first fault
+	}
+	c12Monitor(dst, "target (two faults)")
+	if n1 && kind1 != "choose" { // a swallowed Choose error is the known finding C12-choose-error-swallowed
+		vpAssert(err != nil && errors.Is(err, errInjected), "the returned error wraps the first node error")
+	}
+	if n1 && n2 && err != nil {
+		vpAssert(errors.Is(err, errInjected2), "the returned error also wraps the error of a later callback (EndEdit while unwinding)")
+		vpCover("both fired")
+	}
+	vpCover("reached")
+}
+
+//vp:setup S_c12
+func H_C12_two_faults_upsert_root(s any) { c12TwoFaults(s.(*meta.Module), 0, 0) }
+
+//vp:setup S_c12
+func H_C12_two_faults_upsert_container(s any) { c12TwoFaults(s.(*meta.Module), 0, 1) }
+
+//vp:setup S_c12
+func H_C12_two_faults_update_container(s any) { c12TwoFaults(s.(*meta.Module), 2, 1) }
